@@ -114,6 +114,7 @@ func init() {
 			p.ruleCallbackProtocol(c)
 			p.ruleCursor(c)
 			p.ruleLayout(c)
+			p.ruleWidthCovers(c)
 			p.ruleWidths(c)
 			p.ruleBuildIndex(c)
 			p.ruleE8(c, "geometry.Rect.IntersectsRect", "geometry.Segment.Rect", "(*geometry.rRect).expand", "(*geometry.rRect).contains", "(*geometry.rRect).intersects", "(*geometry.qNode).chooseQuad+quadBounds")
